@@ -472,5 +472,5 @@ def main(tier):
         assumptions=["sha1+base32 is injective on the hashed string", "non-ASCII isalpha is an uninterpreted predicate (the code conjoins isascii)"],
         shims=["instrumenting loader for nanoemoji.glyph and nanoemoji.features (mod/call/method rewriting)", "SymNum.__hash__ constant in the blank-glyph job (set membership by symbolic equality)"],
         stubs=["ufo -> recorder (newGlyph/glyphOrder) in the blank-glyph job", "SVG/PNG -> objects with view_box()/size in the advance job"],
-        budget_s=900 if tier == "quick" else 3400,
+        budget_s=900 if tier == "quick" else 9000,
     )
